@@ -835,6 +835,11 @@ func (g *dgen) method(svc *spec.Service, idx int) *spec.Method {
 					inAll = inAll && has
 				}
 				if k := f.Type.Kind; inAll && (k == spec.String || k == spec.Int || k == spec.Int64 || k == spec.UInt32) && f.Val == nil && !f.HasDef {
+					if k == spec.String && t.Draw("viewed-attribute-in-cookie", 2) == 0 {
+						m.Responses[0].Cookies = map[string]string{f.Name: "vc_" + f.Name}
+						g.feat("views:cookie-mapped-attribute")
+						break
+					}
 					m.Responses[0].Headers = map[string]string{f.Name: "X-V-" + strings.ReplaceAll(f.Name, "_", "-")}
 					g.feat("views:header-mapped-attribute")
 					break
